@@ -67,6 +67,7 @@ type vScenario struct {
 	NoRelayExt  map[string]bool   `json:"norelayext"`  // proxies whose poll omits AcceptedRelayPattern
 	CC          map[string]string `json:"cc"`          // remote address (no port) -> country code in the test GeoIP tables ("??" = not listed)
 	GeoReload   bool              `json:"georeload"`   // herd: the operator's SIGHUP reload of the GeoIP tables while a wave is being served (C20)
+	SameOffers  bool              `json:"sameoffers"`  // every client poll of the scenario is byte-identical (same offer, NAT, fingerprint): still one request each
 	OddText     bool              `json:"oddtext"`     // offers and answers carry control characters, markup characters and runes outside the BMP
 }
 
@@ -105,6 +106,7 @@ type vRig struct {
 	sidName  map[string]string // wire session id -> request name that introduced it
 	cc       map[string]string // address -> country code (scenario input)
 	oddtext  bool
+	same     bool
 	sent     map[string]string // "o:"+client / "a:"+answer -> the exact text sent
 	diverged string
 	sc       int
@@ -620,6 +622,9 @@ func vClassifyClientJSON(ev vEvent, body []byte) {
 func (r *vRig) doClient(q *vReq) vEvent {
 	ev := vClientEvent(q)
 	offer := fmt.Sprintf(`{"type":"offer","sdp":"OFFER:%s:%d%s"}`, q.name, r.sc, r.oddTail(q.name))
+	if r.same {
+		offer = fmt.Sprintf(`{"type":"offer","sdp":"OFFER:same:%d"}`, r.sc)
+	}
 	r.remember("o:"+q.name, offer)
 	w := httptest.NewRecorder()
 	switch q.via {
@@ -939,7 +944,38 @@ func (r *vRig) debugPoll(exact bool) {
 	r.emit(vEvent{"ev": "debug", "avail": avail, "exact": exact})
 }
 
+// outcome counts the responses of a scenario whose client polls were byte-identical (no event of it can
+// be attributed to a client by content): how many proxies were handed an offer, how many clients got
+// past the matching, how many got an answer and how many different answers those were.
+func (r *vRig) outcome() vEvent {
+	r.mu.Lock()
+	defer r.mu.Unlock()
+	offers, matched, answered := 0, 0, 0
+	texts := map[string]bool{}
+	for _, e := range r.events {
+		switch vStr(e["ev"]) {
+		case "p.resp":
+			if vStr(e["kind"]) == "offer" {
+				offers++
+			}
+		case "c.resp":
+			switch vStr(e["kind"]) {
+			case "answer":
+				answered++
+				matched++
+				texts[vStr(e["a"])] = true
+			case "timeout":
+				matched++
+			}
+		}
+	}
+	return vEvent{"ev": "outcome", "offers": offers, "matched": matched, "answered": answered, "distinct": len(texts)}
+}
+
 func (r *vRig) observeEnd(sc *vScenario) vEvent {
+	if sc.SameOffers {
+		r.emit(r.outcome())
+	}
 	end := vEvent{"ev": "end", "pending": r.pending(), "diverged": r.diverged}
 	w := httptest.NewRecorder()
 	req, _ := http.NewRequest("GET", "http://broker.example/debug", nil)
@@ -1062,6 +1098,7 @@ func (r *vRig) runScenario(t *testing.T, sc *vScenario) (events []vEvent, hung b
 	r.similar = sc.SimilarSids
 	r.cc = sc.CC
 	r.oddtext = sc.OddText
+	r.same = sc.SameOffers
 	r.sent = map[string]string{}
 	r.sidName = map[string]string{"unknownSid": "unknownSid"}
 	// every session id this scenario will use (an answer may name a proxy that has not polled yet)
